@@ -136,6 +136,17 @@ type c19Deep1Bad struct {
 	F string `"."`
 }
 
+// an invalid tag in a field that comes after a by-value embedded struct with several grammar fields (the ordinal
+// of the offending field among the grammar fields exceeds the number of fields the struct declares itself)
+type c19EmbedBadLater struct {
+	c19Deep4
+	X string `@Nope`
+}
+type c19EmbedUnclosedLater struct {
+	c19Deep4
+	X string `( @Ident`
+}
+
 type c19LeftRec struct {
 	L *c19LeftRec `@@`
 	V string      `@Ident`
@@ -456,7 +467,7 @@ func checkC19(c *c19Case, r *vstat.Run) outcome {
 			r.JournalDone()
 		}
 		switch c.Static {
-		case "OnlyUnexported", "NoTags", "LeftRec", "DeepBad":
+		case "OnlyUnexported", "NoTags", "LeftRec", "DeepBad", "EmbedBadLater", "EmbedUnclosedLater":
 			expect, reason = tagMalformed, "no usable field / left recursion / unknown token type in a deeply embedded field"
 		case "Unexported", "Nested", "Rec", "EmbedSelf", "EmbedPair", "EmbedVal", "Deep":
 			expect = tagValid
@@ -599,6 +610,12 @@ func buildStatic(name string) (bool, error) {
 	case "DeepBad":
 		p, err := participle.Build[c19Deep1Bad]()
 		return p != nil, err
+	case "EmbedBadLater":
+		p, err := participle.Build[c19EmbedBadLater]()
+		return p != nil, err
+	case "EmbedUnclosedLater":
+		p, err := participle.Build[c19EmbedUnclosedLater]()
+		return p != nil, err
 	case "string":
 		p, err := participle.Build[string]()
 		return p != nil, err
@@ -618,7 +635,7 @@ func buildStatic(name string) (bool, error) {
 	return false, fmt.Errorf("harness: unknown static type")
 }
 
-var c19Statics = []string{"Rec", "Unexported", "OnlyUnexported", "NoTags", "Nested", "WithIface", "MapField", "ChanField", "LeftRec", "string", "*Rec", "[]Rec", "map", "any", "EmbedSelf", "EmbedPair", "EmbedVal", "Deep", "DeepBad"}
+var c19Statics = []string{"Rec", "Unexported", "OnlyUnexported", "NoTags", "Nested", "WithIface", "MapField", "ChanField", "LeftRec", "string", "*Rec", "[]Rec", "map", "any", "EmbedSelf", "EmbedPair", "EmbedVal", "Deep", "DeepBad", "EmbedBadLater", "EmbedUnclosedLater"}
 
 func describeC19(c *c19Case) string {
 	if c.Grammar != nil {
@@ -833,7 +850,7 @@ func propC19(t *rapid.T, r *vstat.Run) {
 			c.Grammar, _ = gram.GenRecSystem(t)
 		case k <= 14:
 			c.Origin = "valid"
-			c.Grammar = gram.GenGrammar(t, gram.GenOpts{MaxProds: 4, MaxDepth: 3, TrapPercent: 10, PosStyles: true, MixedUnion: true, Profiles: true, DeepEmbeds: true})
+			c.Grammar = gram.GenGrammar(t, gram.GenOpts{MaxProds: 4, MaxDepth: 3, TrapPercent: 10, PosStyles: true, MixedUnion: true, Profiles: true, DeepEmbeds: true, Parseables: true})
 		case k <= 16:
 			c.Origin = "static"
 			c.Static = rapid.SampledFrom(c19Statics).Draw(t, "static")
